@@ -99,6 +99,10 @@ pub enum Act {
     CancelRtx { id: u8 },
     Configure { id: u8, cfg: u8 },
     SetRemote { key: u8 },
+    /// set_local_credentials (the statements give it no effect on any reply)
+    SetLocal { key: u8 },
+    /// only as the very first step: the agent is built with `.remote_addr(peer(remote))`
+    Rebuild { remote: u8 },
 }
 
 /// (initial rto ms, retransmits, last retransmit timeout ms): 5 named configurations used by the
@@ -211,6 +215,10 @@ pub struct Post {
     pub peer: [Option<SocketAddr>; N_IDS],
     pub validated: [bool; N_ADDRS],
     pub remote_creds_set: bool,
+    pub local_creds_set: bool,
+    pub remote_addr: Option<SocketAddr>,
+    pub local_addr: SocketAddr,
+    pub tcp: bool,
 }
 
 pub struct Real {
@@ -255,7 +263,16 @@ impl Real {
         for (i, v) in validated.iter_mut().enumerate() {
             *v = self.agent.is_validated_peer(peer(i as u8));
         }
-        Post { live, peer: peers, validated, remote_creds_set: self.agent.remote_credentials().is_some() }
+        Post {
+            live,
+            peer: peers,
+            validated,
+            remote_creds_set: self.agent.remote_credentials().is_some(),
+            local_creds_set: self.agent.local_credentials().is_some(),
+            remote_addr: self.agent.remote_addr(),
+            local_addr: self.agent.local_addr(),
+            tcp: self.agent.transport() == TransportType::Tcp,
+        }
     }
 
     pub fn exec(&mut self, step: &Step) -> Obs {
@@ -343,6 +360,15 @@ impl Real {
             },
             Act::SetRemote { key } => {
                 self.agent.set_remote_credentials(creds(key));
+                Obs::Done
+            }
+            Act::SetLocal { key } => {
+                self.agent.set_local_credentials(creds(key));
+                Obs::Done
+            }
+            Act::Rebuild { remote } => {
+                let t = self.agent.transport();
+                self.agent = StunAgent::builder(t, local_addr()).remote_addr(peer(remote)).build();
                 Obs::Done
             }
         }
